@@ -8,7 +8,7 @@
    (their preconditions); that everything else is free of UB is Rust's guarantee for safe
    code.  The correspondence check ties the single unchecked site to the code (assertion
    hooks inside the unchecked accessors, census of `unsafe` sites).
-   OBLIGATIONS: C15_readers_total C15_iterator_steps_total C15_read_ops_never_ub C15_guard_is_needed C15_nonvacuous *)
+   OBLIGATIONS: C15_readers_total C15_iterator_steps_total C15_read_ops_never_ub C15_guard_is_needed C15_nonvacuous C15_legacy_refuted *)
 From BPT Require Import Common.Base Rust.Arena Rust.Tree Rust.Heap Rust.Readers Rust.Run Rust.NoUB.
 
 (* every map-level reader, on any heap whatsoever *)
@@ -46,3 +46,8 @@ Definition C15_guard_is_needed := try_get_guard_needed.
 (* damaged heaps on which the readers evaluate (to something other than UB) *)
 Definition C15_nonvacuous :=
   (items_dmg_short_values, items_fast_dmg_short_values, items_dmg_dangling_next, items_dmg_cycle).
+
+From BPT Require Import Legacy.RustLegacy.
+(* the iterators as pinned reached out-of-bounds unchecked accesses after one safe helper
+   call (repaired in /repo) *)
+Definition C15_legacy_refuted := (d11_refuted, d11_sites, items_no_ub_refuted, items_fast_no_ub_refuted).
